@@ -1,0 +1,110 @@
+//! Verification hooks for `utils::counter` (compiled only with `--cfg eigerco_lumina_verif`).
+//!
+//! * [`VerifCounter`] / [`VerifCounterGuard`]: public wrappers around the crate-private
+//!   `Counter` / `CounterGuard`.
+//! * `sched_point(id)`: called at statement boundaries of `CounterGuard::drop` (ids 0..=2) and
+//!   `Counter::wait_guards` (ids 3..=7). It does nothing unless the harness installed a delay script
+//!   with [`counter_sched_install`]; then it becomes a seeded spin/yield delay.
+
+use std::sync::atomic::{AtomicBool, AtomicU64, Ordering};
+use std::sync::Mutex;
+use std::time::{Duration, Instant};
+
+use super::{Counter, CounterGuard};
+
+/// Number of scheduling points in `counter.rs`.
+pub const COUNTER_SCHED_POINTS: usize = 8;
+
+#[derive(Clone, Copy)]
+struct Script {
+    seed: u64,
+    max_delay_ns: [u32; COUNTER_SCHED_POINTS],
+}
+
+static ACTIVE: AtomicBool = AtomicBool::new(false);
+static CALLS: AtomicU64 = AtomicU64::new(0);
+static SCRIPT: Mutex<Option<Script>> = Mutex::new(None);
+
+fn mix(a: u64, b: u64) -> u64 {
+    let mut z = a ^ b.wrapping_mul(0x9E37_79B9_7F4A_7C15);
+    z = (z ^ (z >> 30)).wrapping_mul(0xBF58_476D_1CE4_E5B9);
+    z = (z ^ (z >> 27)).wrapping_mul(0x94D0_49BB_1331_11EB);
+    z ^ (z >> 31)
+}
+
+/// Install a delay script: at scheduling point `id` the calling thread is delayed by a
+/// pseudo-random time in `0..=max_delay_ns[id]` (derived from `seed`, `id` and a global call
+/// counter); roughly one call in eight additionally yields the thread.
+pub fn counter_sched_install(seed: u64, max_delay_ns: [u32; COUNTER_SCHED_POINTS]) {
+    *SCRIPT.lock().unwrap_or_else(|e| e.into_inner()) = Some(Script { seed, max_delay_ns });
+    CALLS.store(0, Ordering::SeqCst);
+    ACTIVE.store(true, Ordering::SeqCst);
+}
+
+/// Remove the delay script; `sched_point` is a no-op again.
+pub fn counter_sched_clear() {
+    ACTIVE.store(false, Ordering::SeqCst);
+    *SCRIPT.lock().unwrap_or_else(|e| e.into_inner()) = None;
+}
+
+/// Number of `sched_point` calls since the script was installed.
+pub fn counter_sched_calls() -> u64 {
+    CALLS.load(Ordering::SeqCst)
+}
+
+#[inline]
+pub(super) fn sched_point(id: u32) {
+    if !ACTIVE.load(Ordering::Relaxed) {
+        return;
+    }
+    sched_point_slow(id);
+}
+
+#[cold]
+fn sched_point_slow(id: u32) {
+    let Some(script) = *SCRIPT.lock().unwrap_or_else(|e| e.into_inner()) else {
+        return;
+    };
+    let n = CALLS.fetch_add(1, Ordering::SeqCst);
+    let r = mix(mix(script.seed, id as u64 + 1), n);
+    let max = script.max_delay_ns[(id as usize) % COUNTER_SCHED_POINTS] as u64;
+    if max > 0 {
+        let delay = Duration::from_nanos((r >> 8) % (max + 1));
+        let start = Instant::now();
+        while start.elapsed() < delay {
+            std::hint::spin_loop();
+        }
+        if r & 7 == 0 {
+            std::thread::yield_now();
+        }
+    }
+}
+
+/// Public wrapper around the crate-private `Counter`.
+pub struct VerifCounter(Counter);
+
+/// Public wrapper around the crate-private `CounterGuard` (dropping it drops the guard).
+pub struct VerifCounterGuard(#[allow(dead_code)] CounterGuard);
+
+impl Default for VerifCounter {
+    fn default() -> Self {
+        Self::new()
+    }
+}
+
+impl VerifCounter {
+    /// `Counter::new`
+    pub fn new() -> Self {
+        VerifCounter(Counter::new())
+    }
+
+    /// `Counter::guard`
+    pub fn guard(&self) -> VerifCounterGuard {
+        VerifCounterGuard(self.0.guard())
+    }
+
+    /// `Counter::wait_guards`
+    pub async fn wait_guards(&mut self) {
+        self.0.wait_guards().await
+    }
+}
